@@ -229,6 +229,9 @@ def run_impl(family, cases, release=False):
     if release and not _release_built:
         build_harness(release=True)          # always rebuilt from the current tree, once per check
         _release_built = True
+    cov = os.environ.get('VERIF_COVERAGE_HARNESS')      # development aid: a coverage-instrumented harness binary
+    if cov:
+        return _run_sharded([cov, 'run', family], cases)
     return _run_sharded([HARNESS_REL if release else HARNESS, 'run', family], cases)
 
 def run_model(family, cases):
